@@ -46,7 +46,7 @@ def merge(new):
     except Exception: old=[]
     done={c["property"] for c in new}
     return [c for c in old if c["property"] not in done]+new
-,os
+import os
 json.dump({"id":"$ID","kind":"benign: every property still holds with this change","source":"written by an independent sub-agent that saw only the property texts",
  "notes":open("$OUT/notes.md").read() if os.path.exists("$OUT/notes.md") else "",
  "confirmed":{"applies":"$res_apply","builds_and_existing_suite_with_change":"$suite"},
